@@ -23,6 +23,12 @@ def run(chk):
         "constructors from grids: a convex closed set contains a non-empty grid iff it contains its affine hull (equalities of the minimized congruence system), used as the exact result",
     ]
     chk.prove(shapescheck.SHAPES_COQ)
+    if chk.replay:
+        import json
+        rp = json.load(open(chk.replay))
+        out, byid = shapescheck.run_cases(chk, "C03", list(rp.get("case", [])), "replay", owner)
+        shapescheck.account(chk, out, byid, "replay of " + chk.replay)
+        return
     kinds = gen_shapes.ALL_MAIN
     if chk.quick:
         per_op, nmix = 1, 420
